@@ -105,6 +105,8 @@ def run(ctx):
         w = [dict(op="new", k=k, v=k) for k in (1, 2, 3)]
         add(ops=w, stale="whole", verify=True, delete_old=True)
         add(ops=w, stale="torn", verify=False, delete_old=True)
+        add(ops=w, stale="torn", verify=True, delete_old=True)      # the only way verification fails: legacy must survive
+        add(ops=[], stale="whole", verify=True, delete_old=True)    # nothing to migrate, but a leftover lies at the target
         for _ in range(40 if thorough else 8):       # plain migrations, every configuration
             add()
         add(ops=[dict(op="new", k=1, v=1), dict(op="delete", k=1, v=0)])     # a folder without records
